@@ -12,6 +12,8 @@ import (
 	"io"
 	"net"
 	"net/http"
+	"net/textproto"
+	"strings"
 
 	"github.com/corazawaf/coraza/v3/types"
 )
@@ -45,6 +47,11 @@ type rwInterceptor struct {
 	wroteBufferedBodyToDownstream bool
 	isHijacked                    bool
 	allowFlushing                 bool
+	// headerSnapshot holds the response headers as they were when WriteHeader
+	// was called. The delegated WriteHeader call is deferred, but net/http
+	// ignores the changes made to the header map after WriteHeader (trailers
+	// aside) and phase 3 rules have not seen them, so they must not be sent.
+	headerSnapshot http.Header
 }
 
 // WriteHeader records the status code to be sent right before the moment
@@ -65,6 +72,7 @@ func (i *rwInterceptor) WriteHeader(statusCode int) {
 	}
 
 	i.wroteHeader = true
+	i.headerSnapshot = i.w.Header().Clone()
 
 	for k, vv := range i.w.Header() {
 		for _, v := range vv {
@@ -103,6 +111,7 @@ func (i *rwInterceptor) overrideWriteHeader(statusCode int) {
 // flushWriteHeader sends the status code to the delegate writers
 func (i *rwInterceptor) flushWriteHeader() {
 	if !i.isWriteHeaderFlush {
+		i.restoreHeaders()
 		i.w.WriteHeader(i.statusCode)
 		i.isWriteHeaderFlush = true
 	}
@@ -110,9 +119,47 @@ func (i *rwInterceptor) flushWriteHeader() {
 
 // cleanHeaders removes all headers from the response
 func (i *rwInterceptor) cleanHeaders() {
+	i.headerSnapshot = nil
 	for k := range i.w.Header() {
 		i.w.Header().Del(k)
 	}
+}
+
+// restoreHeaders undoes the changes made to the header map between the call
+// to WriteHeader and the moment the status code is sent to the delegated
+// response writer. Trailers are left untouched as they are legitimately set
+// after WriteHeader.
+func (i *rwInterceptor) restoreHeaders() {
+	if i.headerSnapshot == nil {
+		return
+	}
+
+	isTrailer := func(k string) bool {
+		if strings.HasPrefix(k, http.TrailerPrefix) {
+			return true
+		}
+		for _, v := range i.headerSnapshot["Trailer"] {
+			for _, t := range strings.Split(v, ",") {
+				if textproto.CanonicalMIMEHeaderKey(strings.TrimSpace(t)) == k {
+					return true
+				}
+			}
+		}
+		return false
+	}
+
+	h := i.w.Header()
+	for k := range h {
+		if _, ok := i.headerSnapshot[k]; !ok && !isTrailer(k) {
+			delete(h, k)
+		}
+	}
+	for k, vv := range i.headerSnapshot {
+		if !isTrailer(k) {
+			h[k] = vv
+		}
+	}
+	i.headerSnapshot = nil
 }
 
 // Write buffers the response body until the request body limit is reach or an
